@@ -416,6 +416,39 @@ pub fn run(ctx: &mut Ctx) {
             check_bytes(ctx, &vdir, &md, &path, &raw, &d);
         }
     }
+    // corpus: the CRC-32 collision witness of `C20_extension_counterexample` replayed on the real
+    // code (a 4-byte extension of the body with the footer kept; inherent to a 32-bit checksum)
+    {
+        let vdir = VDir::new();
+        let md = ManagedDirectory::wrap(Box::new(vdir.clone())).unwrap();
+        let path = PathBuf::from("collision.bin");
+        let mut w = md.open_write(&path).unwrap();
+        w.write_all(b"hello").unwrap();
+        tantivy::directory::TerminatingWrite::terminate(w).unwrap();
+        let raw = vdir.raw(&path).unwrap();
+        let mut d = b"hello".to_vec();
+        d.extend([4u8, 204, 23, 200]);
+        d.extend_from_slice(&raw[5..]);
+        vdir.overwrite_raw(&path, &d);
+        let real = real_validate(&md, &path);
+        let model = model_validate(ctx, &d);
+        ctx.report.case("corpus|crc-collision-extension", true);
+        let mut h1 = crc32fast::Hasher::new();
+        h1.update(b"hello");
+        let mut h2 = crc32fast::Hasher::new();
+        h2.update(&d[..9]);
+        let collides = h1.finalize() == h2.finalize();
+        let case = json!({"kind":"damage","path":"collision.bin","original":hex(&raw),"damaged":hex(&d),"damage":"append the colliding 4 bytes 04 cc 17 c8 to body 'hello'","damage_kind":"crc-collision","body_only":true,"in_payload":false});
+        if real == Real::Intact && collides {
+            // attributed only because the harness itself verified that the two bodies have equal CRC-32
+            ctx.report.violation("oracle", "C20:crc32-collision-4-byte-extension", "body extended by 4 bytes with equal CRC-32 is reported intact (inherent to a 32-bit checksum)".into(), case);
+        } else if !collides {
+            ctx.report.violation("model", "C20:crc-collision-witness-stale", format!("the stored collision witness no longer collides under crc32fast (real {:?}, model {model})", real), case);
+        }
+        if (model == "intact") != (real == Real::Intact) {
+            ctx.report.violation("model", "C20:verdict-mismatch", format!("collision witness: real {:?} vs model {model}", real), json!({"kind":"damage","damaged":hex(&d),"body_only":false,"in_payload":false,"damage":"collision witness"}));
+        }
+    }
     let indexes = ctx.budget(6, 60);
     let exhaustive_limit = if ctx.thorough() { 1 << 18 } else { 256 * 8 };
     let samples = if ctx.thorough() { 2000 } else { 150 };
